@@ -29,6 +29,18 @@ structure Env where
   invEvals : Nat := 0
   multiBlock : Nat := 0
   errCases : Nat := 0
+  /-- input distribution (sums over cases) -/
+  kind0 : Nat := 0
+  kind1 : Nat := 0
+  kind2 : Nat := 0
+  charwise : Nat := 0
+  errInvalidArg : Nat := 0
+  errDuplicate : Nat := 0
+  errConversion : Nat := 0
+  patsTotal : Nat := 0
+  hayBytesTotal : Nat := 0
+  elemsTotal : Nat := 0
+  matchesTotal : Nat := 0
   /-- previous case (for the B/C pairs of property C08 and the nfb groups of C11) -/
   prevId : String := ""
   prevResults : List (List Nat × List (String × Results)) := []
@@ -37,7 +49,7 @@ structure Env where
   groupNs : Nat := 0
 
 def Env.statLine (e : Env) : String :=
-  s!"STAT cases={e.cases} built={e.built} err_cases={e.errCases} haystacks={e.hays} haystacks_with_match={e.haysWithMatch} searches={e.searches} transitions_compared={e.trans} multi_block={e.multiBlock} inv_evals={e.invEvals} corr={e.corr} prop={e.prop} inv={e.inv}"
+  s!"STAT cases={e.cases} built={e.built} err_cases={e.errCases} haystacks={e.hays} haystacks_with_match={e.haysWithMatch} searches={e.searches} transitions_compared={e.trans} multi_block={e.multiBlock} inv_evals={e.invEvals} corr={e.corr} prop={e.prop} inv={e.inv} kind_standard={e.kind0} kind_leftmost_longest={e.kind1} kind_leftmost_first={e.kind2} charwise={e.charwise} err_invalid_argument={e.errInvalidArg} err_duplicate_pattern={e.errDuplicate} err_invalid_conversion={e.errConversion} patterns_total={e.patsTotal} haystack_bytes_total={e.hayBytesTotal} elements_total={e.elemsTotal} matches_total={e.matchesTotal}"
 
 def showMatches (ms : List (Match Int)) : String :=
   " ".intercalate (ms.map fun m => s!"{m.start},{m.stop},{m.value}")
@@ -113,7 +125,7 @@ def checkHay (c : Case) (da : DA Int) (P : List (Pat Int)) (a : Acc) (hay : Hay)
   let mut a := a
   let h := hay.bytes
   let hx := toHex h
-  a := { a with env := { a.env with hays := a.env.hays + 1 } }
+  a := { a with env := { a.env with hays := a.env.hays + 1, hayBytesTotal := a.env.hayBytesTotal + h.length } }
   let mut anyMatch := false
   for (m, res) in hay.r do
     a := { a with env := { a.env with searches := a.env.searches + 1 } }
@@ -121,6 +133,7 @@ def checkHay (c : Case) (da : DA Int) (P : List (Pat Int)) (a : Acc) (hay : Hay)
     let spec := specResults P c.kind m h
     let model := modelResults da m h
     if !spec.isEmpty then anyMatch := true
+    a := { a with env := { a.env with matchesTotal := a.env.matchesTotal + spec.length } }
     -- implementation vs specification
     match res with
     | none => a := a.prop "C10" c.id s!"method={m} hay={hx} search panicked"
@@ -341,6 +354,15 @@ def checkCase (env : Env) (c : Case) : Env × Array String := Id.run do
     | .charwise => "C"
   let mut a : Acc := { env := { env with cases := env.cases + 1 },
                        tag := s!"kind={c.kind} variant={vname} vtype={c.vtype} nfb={c.nfb}" }
+  a := { a with env := { a.env with
+    kind0 := a.env.kind0 + (if c.kind == 0 then 1 else 0),
+    kind1 := a.env.kind1 + (if c.kind == 1 then 1 else 0),
+    kind2 := a.env.kind2 + (if c.kind == 2 then 1 else 0),
+    charwise := a.env.charwise + (if c.variant == .charwise then 1 else 0),
+    patsTotal := a.env.patsTotal + c.pats.size,
+    errInvalidArg := a.env.errInvalidArg + (if c.build == "err invalid_argument" then 1 else 0),
+    errDuplicate := a.env.errDuplicate + (if c.build == "err duplicate_pattern" then 1 else 0),
+    errConversion := a.env.errConversion + (if c.build == "err invalid_conversion" then 1 else 0) } }
   let P := if c.vtype == "empty" then c.pats.toList.map (fun p => { p with value := 0 }) else c.pats.toList
   let defects := expectedBuild c P
   let LP : List (LPat Int) := match lpatsOf c.variant P with
@@ -368,6 +390,7 @@ def checkCase (env : Env) (c : Case) : Env × Array String := Id.run do
   match c.da? with
   | none => pure ()
   | some da =>
+    a := { a with env := { a.env with elemsTotal := a.env.elemsTotal + da.states.size } }
     a := { a with env := { a.env with built := a.env.built + 1,
                                       multiBlock := a.env.multiBlock + (if da.states.size > 256 then 1 else 0) } }
     if da.kind != c.kind then a := a.prop "C09" c.id s!"match kind byte {da.kind} for kind {c.kind}"
